@@ -357,6 +357,13 @@ impl Node {
         }
     }
 
+    /// add_block that converts a panic of the node into None (used for builder nodes, whose
+    /// failures are not the subject of the check that is building a history).
+    pub async fn add_guarded(&mut self, b: Block) -> Option<AddBlockResult> {
+        use futures::FutureExt;
+        std::panic::AssertUnwindSafe(self.add(b)).catch_unwind().await.ok()
+    }
+
     pub async fn add(&mut self, b: Block) -> AddBlockResult {
         self.chain
             .add_block(b, &mut self.storage, &mut self.mempool, &self.cfg)
@@ -398,7 +405,8 @@ impl Node {
         for t in txs {
             map.insert(t.signature, t);
         }
-        let mut b = Block::create(
+        use futures::FutureExt;
+        let mut b = std::panic::AssertUnwindSafe(Block::create(
             &mut map,
             parent,
             &self.chain,
@@ -408,8 +416,10 @@ impl Node {
             gt,
             &self.cfg,
             &self.storage,
-        )
+        ))
+        .catch_unwind()
         .await
+        .map_err(|_| "create: panicked".to_string())?
         .map_err(|e| format!("create: {e}"))?;
         b.generate().map_err(|e| format!("generate: {e}"))?;
         Ok(b)
